@@ -1,2 +1,11 @@
-import Adsg.Proofs.Closure
-#print axioms Adsg.mem_closure_iff_reach
+import Adsg.Props.C07
+#print axioms Adsg.C07.sel_active_exists
+#print axioms Adsg.C07.conn_active_exists
+#print axioms Adsg.C07.dv_active_iff_exists
+#print axioms Adsg.C07.inactive_canonical
+#print axioms Adsg.C07.permanent_dv_always_active
+#print axioms Adsg.C07.permanent_sel_always_active
+#print axioms Adsg.C07.activeness_of_corrected_ref
+#print axioms Adsg.C07.activeness_of_corrected_partial
+#print axioms Adsg.C07.activeness_agrees_ref_outside_conn
+#print axioms Adsg.C07.activeness_path_dependent
